@@ -2,10 +2,11 @@
 """C19 - event dispatch order, sender filters, silencing; progress reporter completion."""
 
 import contextlib
+import functools
 import io
 
 from hypothesis import strategies as st
-from hypothesis.stateful import rule, precondition
+from hypothesis.stateful import rule, precondition, initialize
 
 from .. import env, core
 from ..core import require, must_return
@@ -88,8 +89,18 @@ class EmitterInterp(object):
         def plain3(sender, *args, **kwargs):
             return log('f3', sender, args, kwargs)
 
-        self.cbs = [on_open, on_n_b, plain2, plain3, self.owners[0].handler, self.owners[1].handler]
-        self.cb_names = ['f0', 'f1', 'f2', 'f3', 'm0', 'm1']
+        # callables without a __name__: a functools.partial and an instance with __call__ (always
+        # connected with an explicit event name)
+        def tagged(tag, sender, *args, **kwargs):
+            return log('p6', sender, args, kwargs)
+
+        class _Callable(object):
+            def __call__(self, sender, *args, **kwargs):
+                return log('c7', sender, args, kwargs)
+
+        self.cbs = [on_open, on_n_b, plain2, plain3, self.owners[0].handler, self.owners[1].handler,
+                    functools.partial(tagged, 'tag'), _Callable()]
+        self.cb_names = ['f0', 'f1', 'f2', 'f3', 'm0', 'm1', 'p6', 'c7']
         self.regs = []          # model: dicts(event, sender, cb, last)
         self.flag = False       # model of set_silent
         self.depth = 0
@@ -366,7 +377,11 @@ _kwargs = st.dictionaries(st.sampled_from(['k', 'end', 'n']), _small, max_size=2
 class EmitterMachine(_Base):
     KIND = 'emitter'
 
-    @rule(cb=st.integers(0, 5), event=st.sampled_from([None, 'open', 'open', 'open', 'n_b', 'c']),
+    @initialize(salt=st.integers(0, 5))
+    def begin(self, salt):
+        self.start({'salt': salt})      # (only varies the ambient process state of the case)
+
+    @rule(cb=st.integers(0, 7), event=st.sampled_from([None, 'open', 'open', 'open', 'n_b', 'c']),
           sender=st.sampled_from([None, None, 0, 0, 1, 2]), last=st.booleans(),
           style=st.sampled_from(['direct', 'decorator']))
     def connect(self, cb, event, sender, last, style):
@@ -374,7 +389,7 @@ class EmitterMachine(_Base):
 
     @rule(what=st.sampled_from(['cb', 'sender', 'owner']), i=st.integers(0, 5))
     def unconnect(self, what, i):
-        n = {'cb': 6, 'sender': 3, 'owner': 2}[what]
+        n = {'cb': 8, 'sender': 3, 'owner': 2}[what]
         self.do(dict(op='unconnect', what=what, i=i % n))
 
     @rule()
@@ -412,6 +427,10 @@ EmitterMachine.emit3 = EmitterMachine.emit
 
 class ReporterMachine(_Base):
     KIND = 'reporter'
+
+    @initialize(salt=st.integers(0, 5))
+    def begin(self, salt):
+        self.start({'salt': salt})
 
     @rule(kwargs=st.none() | _kwargs)
     def increment(self, kwargs):
